@@ -340,14 +340,15 @@ class Functor(rigid.Functor):
             return sum(map(self, diagram), Tensor.zeros(dom, cod))
         if isinstance(diagram, monoidal.Ty):
             def obj_to_dim(obj):
-                if isinstance(obj, rigid.Ob) and obj.z != 0:
+                winding = obj.z if isinstance(obj, rigid.Ob) else 0
+                if winding != 0:
                     obj = type(obj)(obj.name)  # sets z=0
                 result = self.ob[type(diagram)(obj)]
                 if isinstance(result, int):
                     result = Dim(result)
                 if not isinstance(result, Dim):
                     result = Dim.upgrade(result)
-                return result
+                return result.r if winding % 2 else result
             return Dim(1).tensor(*map(obj_to_dim, diagram.objects))
         if isinstance(diagram, Cup):
             return Tensor.cups(self(diagram.dom[:1]), self(diagram.dom[1:]))
